@@ -543,6 +543,7 @@ def expected_pages(site: Dict[str, Any], real: Dict[str, Any], facts: Dict[str, 
     """The page set the documentation promises, from the real tree and the recipes' titles."""
     M = site["M"]
     exp: Dict[str, Any] = {"index.html": ("home",), "css/style.css": ("css",)}
+    clashes: List[str] = []
     tops = [f"serves{n}" for n in range(1, M + 1)] + ["categories"]
     for d in real["dirs"]:
         for top in tops:
@@ -555,10 +556,14 @@ def expected_pages(site: Dict[str, Any], real: Dict[str, Any], facts: Dict[str, 
                 continue
             stem = nm.rpartition(".")[0]
             if f["servings"] is not None:
-                for n in range(1, M + 1):
-                    exp["/".join([f"serves{n}"] + d["rel"] + [stem + ".html"])] = ("rec", text, n, tuple(d["rel"]), nm)
+                keys = [("/".join([f"serves{n}"] + d["rel"] + [stem + ".html"]), n) for n in range(1, M + 1)]
             else:
-                exp["/".join(["categories"] + d["rel"] + [stem + ".html"])] = ("rec", text, None, tuple(d["rel"]), nm)
+                keys = [("/".join(["categories"] + d["rel"] + [stem + ".html"]), None)]
+            for k, n in keys:
+                if k in exp:
+                    clashes.append(f"{k}: both {exp[k][4]!r} and {nm!r}" if exp[k][0] == "rec" else f"{k}: {nm!r} and a category page")
+                exp[k] = ("rec", text, n, tuple(d["rel"]), nm)
+    exp["__clashes__"] = clashes
     return exp
 
 
@@ -568,6 +573,9 @@ def oracle_pages(site: Dict[str, Any], obs: Dict[str, Any], real: Dict[str, Any]
         return None
     M = site["M"]
     exp = expected_pages(site, real, facts)
+    clashes = exp.pop("__clashes__")
+    if clashes:
+        return "stem-clash: two recipes of one directory get the same page address, one is lost: " + clashes[0]
     got = set(f for f in obs["files"] if not f.startswith("assets/"))
     if got != set(exp):
         miss, extra = sorted(set(exp) - got), sorted(got - set(exp))
@@ -698,10 +706,11 @@ def site_tags(site: Dict[str, Any], obs: Dict[str, Any]) -> List[str]:
         tags.append("pages:" + ("<20" if n < 20 else "<100" if n < 100 else ">=100"))
         if obs["assets"]:
             tags.append("has-assets")
-    kinds = {n["k"] for _p, n in G.walk(site["base"]["ch"][0])}
+    src = [ch for ch in site["base"]["ch"] if ch["name"] == "src"][0]
+    kinds = {n["k"] for _p, n in G.walk(src)}
     if "l" in kinds:
         tags.append("symlinks")
-    depth = max([len(p) for p, n in G.walk(site["base"]["ch"][0]) if n["k"] == "d"] or [0])
+    depth = max([len(p) for p, n in G.walk(src) if n["k"] == "d"] or [0])
     tags.append(f"depth:{depth}")
     if site.get("fault"):
         tags.append("fault:" + site["fault"])
@@ -761,6 +770,8 @@ def oracle_author_links(site: Dict[str, Any], obs: Dict[str, Any], real: Dict[st
     if "error" in obs:
         return None
     exp = expected_pages(site, real, facts)
+    if exp.pop("__clashes__"):
+        return None
     root = real["root"]
     by_rel = {tuple(d["rel"]): d for d in real["dirs"]}
     for page, e in exp.items():
@@ -1120,3 +1131,93 @@ def gen_history(rng: random.Random, site: Dict[str, Any]) -> List[Dict[str, Any]
     if steps[-1]["op"] != "gen":
         steps.append({"op": "gen", "M": site["M"], "order": rng.randrange(10 ** 6), "rng": rng.randrange(10 ** 6)})
     return steps
+
+
+# ------------------------------------------------------------------------------------------------ suites
+
+def site_suite(cases: Optional[List[Case]] = None) -> Suite:
+    return Suite(name="site", imports=IMPORTS, in_ty="site_in", out_ty="site_obs", check="check_site",
+                 show="show_site", shard=3, cases=cases or [])
+
+
+def alone_suite(cases: Optional[List[Case]] = None) -> Suite:
+    return Suite(name="alone", imports=IMPORTS, in_ty="alone_in", out_ty="alone_obs", check="check_alone",
+                 show="show_alone", shard=8, cases=cases or [])
+
+
+def history_suite(cases: Optional[List[Case]] = None) -> Suite:
+    return Suite(name="site-history", imports=IMPORTS, in_ty="hist_in", out_ty="(list hobs)", check="check_history",
+                 show="show_history", shard=2, cases=cases or [])
+
+
+def _site_job(args: Tuple[str, int, int, str, str]) -> Case:
+    which, seed, i, profile, size = args
+    rng = random.Random((seed * 1000003 + i) * 7 + 3)
+    site = G.gen_site(rng, profile, size)
+    return make_site_case(site, seed * 100000 + i, which)
+
+
+def _alone_job(args: Tuple[int, int, str]) -> Optional[Case]:
+    seed, i, profile = args
+    rng = random.Random((seed * 1000003 + i) * 7 + 5)
+    site = G.gen_site(rng, profile, rng.choice(["small", "small", "medium"]))
+    if profile == "valid" and rng.random() < 0.6:
+        add_local_links(rng, site)
+    a = pick_alone(rng, site)
+    if a is None:
+        return None
+    return make_alone_case(site, a, seed * 100000 + i)
+
+
+def add_local_links(rng: random.Random, site: Dict[str, Any]) -> None:
+    """Give some recipes links to files in or below their own directory (what a stand-alone page can embed)."""
+    src = [c_ for c_ in site["base"]["ch"] if c_["name"] == "src"][0]
+    for p, n in list(G.walk(src)):
+        if n["k"] == "f" and "text" in n and G.is_md_name(n["name"]) and not G.is_readme_name(n["name"]):
+            d = G.find(src, p[:-1])
+            assert d is not None
+            locals_ = [ch for ch in d["ch"] if ch["k"] == "f" and ch is not n] + \
+                      [ch for ch in d["ch"] if ch["k"] == "l" and ch["name"] in ("lnk.png", "alias", "sym link.bin", "l#nk")]
+            if not locals_ or rng.random() < 0.3:
+                continue
+            extra = []
+            for ch in rng.sample(locals_, k=min(len(locals_), rng.randrange(1, 3))):
+                style = rng.choice(["plain", "over", "lower", "rawuni"])
+                url = G.spell(rng, (), (ch["name"],), rng.choice(["rel", "abs"]), style) + rng.choice(G.QUERIES) + rng.choice(G.FRAGS)
+                extra.append(G.md_link(rng, url, rng.random() < 0.5))
+            # replace the body: only local links (a link to a page elsewhere would abort the stand-alone page)
+            head = n["text"].split("\n\n")[0]
+            n["text"] = head + "\n\n" + "\n\n".join("See " + e for e in extra) + "\n\n    2 eggs\n"
+
+
+def pmap(f, items, jobs: int = 14):
+    import multiprocessing as mp
+    if len(items) < 4:
+        return [f(x) for x in items]
+    with mp.get_context("fork").Pool(jobs) as pool:
+        return pool.map(f, items, chunksize=1)
+
+
+def gen_site_cases(which: str, seed: int, plan: Sequence[Tuple[str, str, int]]) -> List[Case]:
+    """plan: (profile, size, count) triples."""
+    jobs = []
+    i = 0
+    for profile, size, count in plan:
+        for _ in range(count):
+            jobs.append((which, seed, i, profile, size))
+            i += 1
+    return pmap(_site_job, jobs)
+
+
+def gen_alone_cases(seed: int, n_valid: int, n_err: int) -> List[Case]:
+    jobs = [(seed, i, "valid") for i in range(n_valid)] + [(seed, 10000 + i, rng_prof) for i, rng_prof in
+                                                             enumerate(["errors", "f13", "f15"] * ((n_err + 2) // 3))][:n_valid + n_err]
+    return [x for x in pmap(_alone_job, jobs) if x is not None]
+
+
+def replay_any(inp: Dict[str, Any], which: str) -> Case:
+    if "steps" in inp:
+        return make_history_case(inp["site"], inp["steps"], inp.get("seed", 0))
+    if "alone" in inp:
+        return make_alone_case(inp["site"], inp["alone"], inp.get("seed", 0))
+    return make_site_case(inp["site"], inp.get("seed", 0), which)
